@@ -255,6 +255,8 @@ fn fixed_families(g: &mut Gen) {
         ("m:pipe".into(), "addone | helmert x=3".into()),
         ("m:outer".into(), "m:pipe inv | helmert y=1".into()),
         ("m:omits".into(), "helmert x=3 omit_fwd | helmert y=1 omit_inv".into()),
+        ("m:molo".into(), "molodensky dx=84.87 dy=96.49 dz=116.95".into()),
+        ("m:molo2".into(), "addone | addone inv | m:molo abridged".into()),
     ];
     let geo = "3f c0000000000000".replace(' ', "");
     let _ = geo;
@@ -295,6 +297,18 @@ fn fixed_families(g: &mut Gen) {
         ("addone | m:omits inv", vec!["addone", "helmert x=3 inv"], vec!["addone", "helmert y=1 inv"]),
         ("addone | m:omits omit_fwd | helmert z=1", vec!["addone", "helmert z=1"], vec!["addone", "helmert x=3", "helmert z=1"]),
     ]);
+    // arguments the body does not mention are visible to its steps all the same: an operator that looks at what it
+    // was given (molodensky: `ellps_0` and `ellps_1` together replace `ellps`, `da`, `df`) sees what the caller gave
+    for (inv, seq) in [
+        ("m:molo ellps_0=WGS84 ellps_1=intl", vec!["molodensky dx=84.87 dy=96.49 dz=116.95 ellps_0=WGS84 ellps_1=intl"]),
+        ("m:molo ellps_0=WGS84 ellps_1=intl ellps=bessel", vec!["molodensky dx=84.87 dy=96.49 dz=116.95 ellps_0=WGS84 ellps_1=intl ellps=bessel"]),
+        ("m:molo ellps_0=WGS84", vec!["molodensky dx=84.87 dy=96.49 dz=116.95 ellps_0=WGS84"]),
+        ("m:molo ellps=intl da=-251 df=-1.41927e-05", vec!["molodensky dx=84.87 dy=96.49 dz=116.95 ellps=intl da=-251 df=-1.41927e-05"]),
+        ("m:molo2 ellps_0=WGS84 ellps_1=intl", vec!["addone", "addone inv", "molodensky dx=84.87 dy=96.49 dz=116.95 ellps_0=WGS84 ellps_1=intl abridged"]),
+        ("m:molo inv ellps_1=WGS84 ellps_0=intl", vec!["molodensky dx=84.87 dy=96.49 dz=116.95 ellps_0=intl ellps_1=WGS84 inv"]),
+    ] {
+        cases.push((inv, seq.clone(), seq));
+    }
     for (inv, seq_f, seq_i) in cases {
         for dir in ["F", "I"] {
             let seq = if dir == "F" { &seq_f } else { &seq_i };
